@@ -37,6 +37,13 @@ SCHEMES = ['http', 'https', 'ftp', 'ws', 'foo', 'git+ssh', 'http', 'http']
 HOSTS = ['a', 'h.x', 'example.com', '10.0.0.1', 'a-b.c0']
 USERINFO = ['', '', '', 'u@', 'u:p@', "us.er:p!w@"]
 PORTS = ['', '', '', ':8080', ':81', ':65535', ':80', ':0', ':0443', ':']
+AS_MODES = [0, 0, 0, 1, 1, 2, 3, 4, 5]
+# components whose DECODED form still looks percent-encoded (double encoding), escapes of delimiters, of plain
+# characters, of dots, and things that only look like escapes
+PCT_SEGS = ['100%2525', 'a%2Fb', '%41', '%zz', 'x%', '%252e%252e', '%2e%2e', '%2E', 'q%3Fr', 'h%23i', '%25', '%5Bz%5D',
+            '%2525', '%25252F']
+PCT_QUERIES = ['to=http%253A%252F%252Fb', 'k=%26', 'k%3Dx=1', 'a%2525=b%25', 'k=%2525&k=%25', 'p=%2B&s=%3B', 'z%25']
+PCT_FRAGS = ['f%2523', '%23', 'x%25y', '%2541', 's%252F']
 QUERIES = ['y', 'k=v', 'k=v&z', 'k=1&k=2', 'a/b?c=d', 'q=@:x', 'x&y&x', 'b=1&a=2&b=3']
 FRAGS = ['s', 'sec-2', 'a/b?c', 'x:y', 'f=1&g']
 
@@ -80,6 +87,14 @@ def _base(rng, canonical=False):
         segs = _path(rng, 6)
         return 'file:///' + '/'.join(segs) + (('?' + rng.choice(QUERIES)) if rng.random() < 0.3 else '') \
                + (('#' + rng.choice(FRAGS)) if rng.random() < 0.3 else '')
+    if not canonical and rng.random() < 0.12:
+        # percent escapes of every depth in path / query / fragment (the reference is then often empty,
+        # query-only or fragment-only: see _ref_for)
+        segs = [rng.choice(PCT_SEGS) if rng.random() < 0.6 else rng.choice(SEGS) for _ in range(rng.randint(1, 4))]
+        return (rng.choice(['http', 'https', 'foo']) + '://' + rng.choice(USERINFO[:5]) + rng.choice(HOSTS)
+                + rng.choice(PORTS[:6]) + '/' + '/'.join(segs) + rng.choice(['', '/'])
+                + (('?' + rng.choice(PCT_QUERIES + QUERIES)) if rng.random() < 0.6 else '')
+                + (('#' + rng.choice(PCT_FRAGS + FRAGS)) if rng.random() < 0.5 else ''))
     sch = rng.choice(SCHEMES)
     host = rng.choice(HOSTS)
     upper = rng.random() < 0.15          # mixed-case scheme/host: navigate/normalize lower-case them (RFC 6.2.2.1)
@@ -181,8 +196,8 @@ def _exhaustive(with_len5=True):
                     continue
                 for b in EXH_BASES:
                     k += 1
-                    yield {"base": b, "ref1": p, "as_url1": k % 3, "ref2": r2s[k % len(r2s)],
-                           "as_url2": (k // 3) % 3, "unrooted": k % 5 == 0}
+                    yield {"base": b, "ref1": p, "as_url1": k % 6, "ref2": r2s[k % len(r2s)],
+                           "as_url2": (k // 6) % 6, "unrooted": k % 5 == 0}
     # length 5 over the four structural symbols, three base shapes (empty path, directory, empty segments)
     for segs in (itertools.product(['.', '..', '', 'a'], repeat=5) if with_len5 else ()):
         for lead in ('', '/'):
@@ -191,8 +206,8 @@ def _exhaustive(with_len5=True):
                 continue
             for b in ('http://a', 'http://a/b/', 'http://a//b//'):
                 k += 1
-                yield {"base": b, "ref1": p, "as_url1": k % 3, "ref2": r2s[k % len(r2s)],
-                       "as_url2": (k // 3) % 3, "unrooted": k % 5 == 0}
+                yield {"base": b, "ref1": p, "as_url1": k % 6, "ref2": r2s[k % len(r2s)],
+                       "as_url2": (k // 6) % 6, "unrooted": k % 5 == 0}
 
 
 def generate(rng, tier, n):
@@ -200,8 +215,17 @@ def generate(rng, tier, n):
         for c in _exhaustive():
             yield c
     for _ in range(n):
-        yield {"base": _base(rng), "ref1": _ref(rng), "as_url1": rng.choice([0, 0, 1, 1, 2]),
-               "ref2": _ref(rng), "as_url2": rng.choice([0, 0, 1, 1, 2]), "unrooted": rng.random() < 0.15}
+        b = _base(rng)
+        if '%' in b and rng.random() < 0.6:
+            # the same-document references, where the base's own components must survive unchanged
+            r1, r2 = rng.choice(['', '', '#s', '?y', '#x:y', '']), rng.choice(['', '#s', '?k=v', 'g', '.'])
+            if rng.random() < 0.5:
+                r1, r2 = r2, r1
+            yield {"base": b, "ref1": r1, "as_url1": rng.choice(AS_MODES), "ref2": r2,
+                   "as_url2": rng.choice(AS_MODES), "unrooted": rng.random() < 0.15}
+            continue
+        yield {"base": b, "ref1": _ref(rng), "as_url1": rng.choice(AS_MODES),
+               "ref2": _ref(rng), "as_url2": rng.choice(AS_MODES), "unrooted": rng.random() < 0.15}
 
 
 def search(rng, tier, n, broken):
@@ -255,16 +279,32 @@ def run_impl(case):
 
 
 def _as_arg(URL, text, mode):
-    """how the destination is handed to navigate(): 0/False the text, 1/True URL(text),
-    2 a URL object assembled with from_parts from the parsed fields (its raw _query etc. are
-    those of an empty URL: only the public attributes carry the data)."""
+    """how the destination is handed to navigate():
+      0/False the text;  1/True URL(text);
+      2 a URL object assembled with from_parts from the parsed fields (its raw _query etc. are those
+        of an empty URL: only the public attributes carry the data);
+      3 URL(text) after the caller called normalize() on it (path_parts is then a LIST);
+      4 the object URL('').navigate(text) returns (built by from_parts + normalize, list path_parts);
+      5 URL(text) with path_parts replaced by the equal list.
+    3 and 4 may change what the object denotes (dot segments, case): they are used only when the
+    object still prints the given text, else URL(text) is passed - the same object the model uses."""
     if not mode:
         return text
     u = URL(text)
-    if int(mode) == 2:
+    m = int(mode)
+    if m == 2:
         return URL.from_parts(scheme=u.scheme, host=u.host, path_parts=tuple(u.path_parts),
                               query_params=u.query_params, fragment=u.fragment, port=u.port,
                               username=u.username, password=u.password)
+    if m == 3:
+        v = URL(text)
+        v.normalize()
+        return v if v.to_text() == text else u
+    if m == 4:
+        v = URL('').navigate(text)
+        return v if v.to_text() == text else u
+    if m == 5:
+        u.path_parts = list(u.path_parts)
     return u
 
 
@@ -344,7 +384,7 @@ def _bump(d, key, sub):
 def distribution(d, case, obs):
     _bump(d, "ref1_kind", _kind(case["ref1"]))
     _bump(d, "ref2_kind", _kind(case["ref2"]))
-    _bump(d, "ref1_passed_as", ["str", "URL(text)", "URL.from_parts(fields)"][int(case["as_url1"])])
+    _bump(d, "ref1_passed_as", ["str", "URL(text)", "URL.from_parts(fields)", "URL(text).normalize()d", "URL('').navigate(text)", "URL(text) with list path_parts"][int(case["as_url1"])])
     _bump(d, "base_built_by", "from_parts(unrooted path_parts)" if case.get("unrooted") else "URL(text)")
     b = case["base"]
     bp = b.split('#')[0].split('?')[0].split('://', 1)[1].partition('/')
@@ -356,6 +396,8 @@ def distribution(d, case, obs):
         _bump(d, "base_path", "with-dot-segments")
     if b.split('://')[0] != b.split('://')[0].lower():
         _bump(d, "base_has", "mixed-case scheme/host")
+    if '%' in b:
+        _bump(d, "base_has", "percent escapes")
     _bump(d, "base_has", "query" if '?' in b else "no-query")
     _bump(d, "base_has", "fragment" if '#' in b else "no-fragment")
     _bump(d, "base_has", "userinfo" if '@' in bp[0] else "no-userinfo")
